@@ -5,11 +5,11 @@ C12 — executable model of `mxlpy.symbolic.symbolic_model.to_symbolic_model`
 
 A model whose functions translate is a `SContent`: the same seven containers as the
 numeric `Content` of `Model/Core.lean`, but every function carries the symbolic body
-`fn_to_sympy` produces for it (an `SExpr` over its positional arguments).  `toContent`
+`fn_to_sympy` produces for it (a `BExpr` over its positional arguments).  `toContent`
 forgets the bodies into the opaque functions `List Rat → Rat` of the numeric core, so
 `callRhs sc.toContent` is the numeric right-hand side of the very same model.
 ASSUMPTION (named, C06's subject): `fn_to_sympy f` returns the expression `body` with
-`f(v₀,…) = evalS _ [v₀,…] body`; it never returns `None` for these functions.
+`f(v₀,…) = evalB [v₀,…] body`; it never returns `None` for these functions.
 
 Surrogates are kept opaque (they have no symbolic form); `to_symbolic_model` only meets
 them through the cache (their outputs are no symbols, their fluxes have no expression).
@@ -20,7 +20,7 @@ namespace Mxl.C12
 
 structure SFn where
   args : List Name
-  body : SExpr
+  body : BExpr
 deriving Inhabited
 
 inductive SCoef where
@@ -49,7 +49,7 @@ structure SContent where
 deriving Inhabited
 
 /-- the Python callable: evaluate the body at the positional arguments -/
-def SFn.toFn (f : SFn) : Fn := { args := f.args, fn := fun vs => evalS (fun _ => 0) vs f.body }
+def SFn.toFn (f : SFn) : Fn := { args := f.args, fn := fun vs => evalB vs f.body }
 
 def SCoef.toCoef : SCoef → Coef
   | .num c => .num c
@@ -245,7 +245,7 @@ def callJac (c : SContent) (t : Rat) (xs : List Rat) : Except Err (Option (List 
     if xs.length != f.varNames.length then .error (.valueError "not enough values to unpack")
     else match f.unbound with
       | some n => .error (.nameError n)
-      | none => pure (some (f.jac.map fun row => row.map (evalS (lamEnv f t xs ps) [])))
+      | none => pure (some (f.jac.map fun row => row.map (evalS (lamEnv f t xs ps))))
 
 /-! ### the environment in which symbolic and numeric sides are compared -/
 
@@ -255,6 +255,36 @@ def symEnvL (c : SContent) (cache : Cache) (xs : List Rat) : Env :=
 
 def symEnv (c : SContent) (cache : Cache) (xs : List Rat) : Name → Rat :=
   fun n => ((symEnvL c cache xs).lookup n).getD 0
+
+/-! ### well-formedness (what `Model`'s `_ids` registry guarantees) -/
+
+/-- every name the model declares, plus `time` -/
+def SContent.names (c : SContent) : List Name :=
+  omKeys c.vars ++ omKeys c.pars ++ omKeys c.data ++ omKeys c.derived ++ omKeys c.rxns ++ ["time"]
+
+/-- `Model._insert_id` refuses a name that is already taken (and `time` is taken from the
+    start); a stoichiometry is a dict, so a compound occurs once per reaction.  The theorems
+    of `Props/C12` are about surrogate-free models, as the property is. -/
+def SContent.wf (c : SContent) : Bool :=
+  decide c.names.Nodup && c.surs.isEmpty &&
+    c.rxns.all fun kv => decide (omKeys kv.2.stoich).Nodup
+
+/-- sufficient, order-free condition for the conversion to succeed (membership tests only):
+    every argument of a derived quantity or of a reaction is a variable, a plain parameter,
+    a data name or a derived quantity; every coefficient is a number; every variable occurs
+    in some stoichiometry. -/
+def SContent.symNames (c : SContent) : List Name :=
+  omKeys c.vars ++ omKeys (plainOf c.toContent.pars) ++ omKeys c.data ++ omKeys c.derived
+
+def SCoef.isNum : SCoef → Bool
+  | .num _ => true
+  | .dyn _ => false
+
+def SContent.convertible (c : SContent) : Bool :=
+  c.derived.all (fun kv => kv.2.args.all fun a => c.symNames.contains a) &&
+  c.rxns.all (fun kv => kv.2.rate.args.all fun a => c.symNames.contains a) &&
+  c.rxns.all (fun kv => kv.2.stoich.all fun cs => cs.2.isNum) &&
+  (omKeys c.vars).all (fun v => c.rxns.any fun kv => (omKeys kv.2.stoich).contains v)
 
 /-! ### order-free specification (search oracle through the driver)
 
